@@ -14,7 +14,7 @@ META = {
     "assumptions": ["garbage that contains the frame-start marker and frames with bad checksums are C10's subject"],
 }
 REQUIRED_ORACLES = ["delivery", "journal", "state-and-tap"]
-REQUIRED_COUNTERS = ["streams_ending_on_a_full_4096_byte_read", "cases_over_4096_bytes", "cases_with_garbage"]
+REQUIRED_COUNTERS = ["streams_ending_on_a_full_4096_byte_read", "cases_over_4096_bytes", "cases_with_garbage", "streams_with_a_frame_the_session_layer_chokes_on"]
 NSHARDS = 16
 
 
@@ -39,6 +39,10 @@ def make_frames(rnd, peer, kinds):
             fr.append(("a", peer.frame("8", None, [(11, "b%d" % rnd.randrange(1000)), (58, "T" * 300), (17, "e1")])))
         elif k == "small":
             fr.append(("a", peer.frame("D", None, [(11, "s")])))
+        elif k == "bad34":
+            # well framed, but the session layer chokes on it (MsgSeqNum is not a number): logged and dropped, whatever the chunking -
+            # and the frames around it are handled as if it had not been there
+            fr.append(("x", peer.frame("D", "abc", [(11, "bad%d" % rnd.randrange(1000)), (55, "X")])))
         elif k == "mk":
             # a valid frame whose Text quotes a BeginString: the frame-start text inside a value is not a frame start
             fr.append(("a", peer.frame("j", None, [(45, 7), (58, "Unsupported BeginString 8=FIX.4.2 (expected 8=FIX.4.4)"), (380, 0)])))
@@ -141,7 +145,7 @@ async def run_partition(acc, clock, stream, frames, cuts, garb_regions, cid, sid
             return
         acc.oracle("journal")
         rows = j.recover_messages(ep._session, D.INBOUND, 0, sys.maxsize)
-        exp_rows = [logon] + [fb for _, fb in frames]
+        exp_rows = [logon] + [fb for k_, fb in frames if k_ != "x"]
         if rows != exp_rows:
             acc.violation(classify("inbound-journal-differs"), f"{len(rows)} rows vs {len(exp_rows)} frames sent", w, cid)
             return
@@ -153,8 +157,9 @@ async def run_partition(acc, clock, stream, frames, cuts, garb_regions, cid, sid
         if bad:
             acc.violation(classify("resend-or-logout-emitted"), f"{len(bad)} recovery frames on the tap", w, cid)
             return
-        if ep._session.next_num_in != 2 + len(frames):
-            acc.violation(classify("inbound-counter"), f"next_num_in={ep._session.next_num_in} expected {2 + len(frames)}", w, cid)
+        ncount = sum(1 for k_, _ in frames if k_ != "x")
+        if ep._session.next_num_in != 2 + ncount:
+            acc.violation(classify("inbound-counter"), f"next_num_in={ep._session.next_num_in} expected {2 + ncount}", w, cid)
         if ep._msg_buffer not in (b"",) and not garb_regions:
             acc.violation(classify("residue-in-buffer"), f"{len(ep._msg_buffer)} bytes left in the receive buffer", w, cid)
     except SpinAbort as e:
@@ -273,6 +278,10 @@ def run_shard(spec, acc):
             peer = E.Peer("PEER", "ME")
             peer.next_out = 2
             kinds = [rnd.choice(["hb", "tr", "nos", "grp", "big", "small", "mk"]) for _ in range(rnd.randrange(1, 5))]
+            if rnd.random() < 0.25:
+                kinds.insert(rnd.randrange(len(kinds) + 1), "bad34")
+                kinds.append(rnd.choice(["nos", "small"]))
+                acc.add("streams_with_a_frame_the_session_layer_chokes_on")
             if rnd.random() < 0.1:
                 kinds += ["big"] * rnd.randrange(8, 12)   # > 4096 bytes: read(4096) splits
             frames = make_frames(rnd, peer, kinds)
